@@ -47,11 +47,15 @@ SPath(p, cur, Tcur, tgt, T) ==
   ELSE IF cur < tgt THEN SegS(Cof(p, cur), Tcur, Tt(p, cur)) + LatS(p, cur) + SPath(p, cur + 1, Tt(p, cur), tgt, T)
   ELSE SegS(Cof(p, cur), Tcur, Tt(p, cur - 1)) - LatS(p, cur - 1) + SPath(p, cur - 1, Tt(p, cur - 1), tgt, T)
 
-H400(p, ph, T20) == HPath(p, Rank(p.ref), Tref20, Rank(ph), T20)
-S20(p, ph, T20)  == p.S0_20 + SPath(p, Rank(p.ref), Tref20, Rank(ph), T20)
-Cn20(p, ph, T20) == 2 * Cof(p, Rank(ph)) * T20          \* 20 x Cn = 20 x 2 c T = 2 c T20
+\* a phase-locked chemical (p.lock # "none") exists in one phase only: whatever phase label it is asked for, it is that
+\* phase, and its reference state is (lock phase, T_ref) with H = 0, S = S0
+EvPh(p, ph) == IF p.lock = "none" THEN ph ELSE p.lock
+RefPh(p) == IF p.lock = "none" THEN p.ref ELSE p.lock
+H400(p, ph, T20) == HPath(p, Rank(RefPh(p)), Tref20, Rank(EvPh(p, ph)), T20)
+S20(p, ph, T20)  == p.S0_20 + SPath(p, Rank(RefPh(p)), Tref20, Rank(EvPh(p, ph)), T20)
+Cn20(p, ph, T20) == 2 * Cof(p, Rank(EvPh(p, ph))) * T20          \* 20 x Cn = 20 x 2 c T = 2 c T20
 
-ParOK(p) == /\ p.ref \in {"s", "l", "g"} /\ p.Tm20 < p.Tb20 /\ p.cs > 0 /\ p.cl > 0 /\ p.cg > 0
+ParOK(p) == /\ p.ref \in {"s", "l", "g"} /\ p.lock \in {"none", "s", "l", "g"} /\ p.Tm20 < p.Tb20 /\ p.cs > 0 /\ p.cl > 0 /\ p.cg > 0
             /\ p.Sfus20 * p.Tm20 = p.Hfus400 /\ p.Svap20 * p.Tb20 = p.Hvap400      \* S = H / T in these units
 
 ---------------------------------------------------------------------------
@@ -71,8 +75,8 @@ Judge(s, e) ==
   ELSE IF e.post # s THEN "frame"
   ELSE IF e.op = "eval" THEN
        IF ~Near(e.obs.H400, H400(p, a.ph, a.T20), 1) THEN "enthalpy"
-       ELSE IF a.ph = "g" /\ ~Near(e.obs.Sg20, S20(p, a.ph, a.T20), 1) THEN "entropy.gas"
-       ELSE IF a.ph # "g" /\ ~Near(e.obs.S20, S20(p, a.ph, a.T20), 1) THEN "entropy.condensed"
+       ELSE IF EvPh(p, a.ph) = "g" /\ ~Near(e.obs.Sg20, S20(p, a.ph, a.T20), 1) THEN "entropy.gas"
+       ELSE IF EvPh(p, a.ph) # "g" /\ ~Near(e.obs.S20, S20(p, a.ph, a.T20), 1) THEN "entropy.condensed"
        ELSE IF ~Near(e.obs.Cn20, Cn20(p, a.ph, a.T20), 1) THEN "heat_capacity"
        ELSE "ok"
   ELSE \* mixture: mole-weighted sums; entropy exceeds them by the ideal mixing term (removed by the driver)
@@ -94,17 +98,21 @@ Next == UNCHANGED <<par, mix, path>>
 vars == <<par, mix, path>>
 Spec == Init /\ [][Next]_vars
 Phs == {"s", "l", "g"}
-ReferenceState == H400(par, par.ref, Tref20) = 0 /\ S20(par, par.ref, Tref20) = par.S0_20
+ReferenceState == H400(par, RefPh(par), Tref20) = 0 /\ S20(par, RefPh(par), Tref20) = par.S0_20
 \* d/dT: the difference over one grid step equals the integral of Cn (resp. Cn/T) over it
 Derivatives == \A ph \in Phs, T \in {5000, 6000, 8000} :
-                 /\ H400(par, ph, T + 20) - H400(par, ph, T) = Seg(Cof(par, Rank(ph)), T, T + 20)
-                 /\ S20(par, ph, T + 20) - S20(par, ph, T) = SegS(Cof(par, Rank(ph)), T, T + 20)
+                 /\ H400(par, ph, T + 20) - H400(par, ph, T) = Seg(Cof(par, Rank(EvPh(par, ph))), T, T + 20)
+                 /\ S20(par, ph, T + 20) - S20(par, ph, T) = SegS(Cof(par, Rank(EvPh(par, ph))), T, T + 20)
 \* jumps at the normal melting / boiling point
-Jumps == /\ H400(par, "g", par.Tb20) - H400(par, "l", par.Tb20) = par.Hvap400
+Jumps == par.lock = "none" =>
+         /\ H400(par, "g", par.Tb20) - H400(par, "l", par.Tb20) = par.Hvap400
          /\ H400(par, "l", par.Tm20) - H400(par, "s", par.Tm20) = par.Hfus400
          /\ S20(par, "g", par.Tb20) - S20(par, "l", par.Tb20) = par.Svap20
          /\ S20(par, "l", par.Tm20) - S20(par, "s", par.Tm20) = par.Sfus20
 \* the choice of reference phase only shifts H and S by a constant
-RefShift == \A ph1 \in Phs, ph2 \in Phs, T1 \in {5000, 8000}, T2 \in {6000, 9000} :
+\* a phase-locked chemical has no jumps: every phase label gives the same value
+LockedOnePhase == par.lock # "none" => \A ph1 \in Phs, ph2 \in Phs, T \in {5000, 8000} :
+                    H400(par, ph1, T) = H400(par, ph2, T) /\ S20(par, ph1, T) = S20(par, ph2, T)
+RefShift == par.lock = "none" /\ mix.lock = "none" => \A ph1 \in Phs, ph2 \in Phs, T1 \in {5000, 8000}, T2 \in {6000, 9000} :
               H400(par, ph1, T1) - H400(par, ph2, T2) = H400([par EXCEPT !.ref = mix.ref], ph1, T1) - H400([par EXCEPT !.ref = mix.ref], ph2, T2)
 =============================================================================
